@@ -64,13 +64,24 @@ impl<R> Reader<R> {
         requires
             old(self).inv(),
             // A-size: the input that is left is addressable and its end position is representable
-            old(self).state.offset + old(self).reader.remaining().len() <= u64::MAX,
+            !(old(self).state.state is Done) ==> old(self).state.offset + old(self).reader.remaining().len() <= u64::MAX,
             old(self).reader.remaining().len() <= usize::MAX,
         ensures
             final(self).inv(),
             final(self).reader.faults() >= old(self).reader.faults(),
             event_post(old(self).state, old(self).reader.remaining(), final(self).state, final(self).reader.remaining(), r,
                 final(self).reader.faults() > old(self).reader.faults()),
+            // C03: progress, monotone positions, Eof is final
+            continues(r) ==> measure(final(self).state, final(self).reader.remaining()) < measure(old(self).state, old(self).reader.remaining()),
+            final(self).state.offset >= old(self).state.offset,
+            continues(r) ==> final(self).state.offset + final(self).reader.remaining().len() <= old(self).state.offset + old(self).reader.remaining().len(),
+            final(self).reader.remaining().len() <= old(self).reader.remaining().len(),
+            r matches Ok(ev) ==> ev_wf(ev),
+            final(self).state.config == old(self).state.config,
+            !continues(r) && !(r matches Err(Error::Io(_))) ==> final(self).state.state is Done,
+            final(self).bufpos() >= old(self).bufpos(),
+            // C03: after Eof (and after any error that ended the document) every further call returns Eof
+            old(self).state.state is Done ==> (r matches Ok(Event::Eof)) && final(self).state == old(self).state,
     {
         let ghost pre = self.state;
         let ghost rem = self.reader.remaining();
@@ -82,9 +93,16 @@ impl<R> Reader<R> {
             invariant_except_break
                 self.inv(),
                 self.reader.faults() == f0,
-                self.state.offset + self.reader.remaining().len() <= u64::MAX,
+                !(self.state.state is Done) ==> self.state.offset + self.reader.remaining().len() <= u64::MAX,
                 self.reader.remaining().len() <= usize::MAX,
                 self.state.config == pre.config,
+                measure(self.state, self.reader.remaining()) <= measure(pre, rem),
+                self.state.state is InsideText ==> (pre.state is Init || pre.state is InsideText),
+                self.state.state is Init ==> pre.state is Init,
+                !(pre.state is Init || pre.state is InsideText) ==> self.state == pre && self.reader.remaining() == rem,
+                self.state.offset >= pre.offset,
+                self.reader.remaining().len() <= rem.len(),
+                !(pre.state is Done) ==> self.state.offset + self.reader.remaining().len() <= pre.offset + rem.len(),
                 forall|post: ReaderState, rem2: Seq<u8>, r: core::result::Result<Event<'i>, Error>, fault: bool|
                     #[trigger] event_post(self.state, self.reader.remaining(), post, rem2, r, fault) ==> event_post(pre, rem, post, rem2, r, fault),
             ensures
@@ -96,6 +114,13 @@ impl<R> Reader<R> {
                 self.state.state is InsideMarkup ==> self.state.offset >= 1 && self.state.last_error_offset <= self.state.offset - 1,
                 self.state.state is InsideEmpty ==> self.state.stack().len() > 0,
                 self.state.last_error_offset <= self.state.offset,
+                continues(event) ==> measure(self.state, self.reader.remaining()) < measure(pre, rem),
+                self.state.offset >= pre.offset,
+                continues(event) ==> self.state.offset + self.reader.remaining().len() <= pre.offset + rem.len(),
+                self.reader.remaining().len() <= rem.len(),
+                event matches Ok(ev) ==> ev_wf(ev),
+                !continues(event) && !(event matches Err(Error::Io(_))) ==> self.state.state is Done || (event is Err) || (event matches Ok(Event::Eof)),
+                self.state.state is InsideMarkup ==> self.state.offset >= pre.offset + 1 && !(pre.state is InsideMarkup),
             decreases (match self.state.state { ParseState::Init => 2int, ParseState::InsideText => 1int, _ => 0int })
         {
             proof { gcur = self.state; grem = self.reader.remaining(); }
@@ -214,6 +239,21 @@ impl<R> Reader<R> {
                 assert(self.state.wf() && self.state.config == pre.config) by {
                     reveal(arm_post); reveal(text_post); reveal(io_fail); reveal(markup_post);
                 }
+                assert(continues(event) ==> measure(self.state, self.reader.remaining()) < measure(gcur, grem)) by {
+                    reveal(arm_post); reveal(text_post); reveal(io_fail); reveal(markup_post);
+                }
+                assert(self.state.offset >= gcur.offset && (continues(event) ==> self.state.offset + self.reader.remaining().len() <= gcur.offset + grem.len())) by {
+                    reveal(arm_post); reveal(text_post); reveal(io_fail); reveal(markup_post);
+                }
+                assert(self.reader.remaining().len() <= grem.len()) by {
+                    reveal(arm_post); reveal(text_post); reveal(io_fail); reveal(markup_post);
+                }
+                assert(event matches Ok(ev) ==> ev_wf(ev)) by {
+                    reveal(arm_post); reveal(text_post); reveal(io_fail); reveal(markup_post);
+                }
+                assert(self.state.state is InsideMarkup ==> self.state.offset >= gcur.offset + 1 && (gcur.state is InsideText)) by {
+                    reveal(arm_post); reveal(text_post); reveal(io_fail); reveal(markup_post);
+                }
             } break; };
         };
         let ghost m = self.state;
@@ -251,6 +291,7 @@ impl<R> Reader<R> {
             old(self).reader.remaining().len() <= usize::MAX,
         ensures
             final(self).reader.faults() >= old(self).reader.faults(),
+            final(self).reader.remaining().len() <= old(self).reader.remaining().len(),
             markup_post(old(self).state, old(self).reader.remaining(), final(self).state, final(self).reader.remaining(), r,
                 final(self).reader.faults() > old(self).reader.faults()),
     {
@@ -335,4 +376,234 @@ impl<R> Reader<R> {
     }
     }
 //@end
+}
+
+pub mod slice_reader_ {
+use super::*;
+use vstd::prelude::*;
+pub type Result<T> = core::result::Result<T, Error>;
+pub type Span = core::ops::Range<u64>;
+
+impl<'a> Reader<&'a [u8]> {
+//@extract slice_reader::Reader::read_event | src/reader/slice_reader.rs :: impl<'a> Reader<&'a [u8]> :: fn read_event | serves=C01,C03
+ fn read_event(&mut self) -> (r: Result<Event<'a>>)
+        requires
+            old(self).inv(),
+            !(old(self).state.state is Done) ==> old(self).state.offset + old(self).reader.remaining().len() <= u64::MAX,
+            old(self).reader.remaining().len() <= usize::MAX,
+        ensures
+            final(self).inv(),
+            final(self).reader.faults() >= old(self).reader.faults(),
+            event_post(old(self).state, old(self).reader.remaining(), final(self).state, final(self).reader.remaining(), r,
+                final(self).reader.faults() > old(self).reader.faults()),
+            continues(r) ==> measure(final(self).state, final(self).reader.remaining()) < measure(old(self).state, old(self).reader.remaining()),
+            final(self).bufpos() >= old(self).bufpos(),
+            final(self).state.config == old(self).state.config,
+ {
+        self.read_event_impl(())
+    }
+//@end
+
+//@extract slice_reader::Reader::read_to_end | src/reader/slice_reader.rs :: impl<'a> Reader<&'a [u8]> :: fn read_to_end | serves=C03,C12 expand=read_to_end macro_files=src/reader/mod.rs
+ #[verifier::loop_isolation(false)]
+ #[verifier::allow_complex_invariants]
+ fn read_to_end(&mut self, end: QName) -> (r: Result<Span>)
+        requires
+            old(self).inv(),
+            !(old(self).state.state is Done) ==> old(self).state.offset + old(self).reader.remaining().len() <= u64::MAX,
+            old(self).reader.remaining().len() <= usize::MAX,
+        ensures
+            final(self).inv(),
+            final(self).reader.faults() >= old(self).reader.faults(),
+            // the temporarily changed trimming switch is restored on EVERY exit (C12)
+            final(self).state.config == old(self).state.config,
+            final(self).bufpos() >= old(self).bufpos(),
+            match r {
+                // the span starts where the reader stood and ends before the end tag that was read last
+                Ok(span) => span.start == old(self).bufpos() && span.start <= span.end <= final(self).bufpos(),
+                Err(_) => true,
+            },
+ {
+        let ghost cfg0 = self.state.config;
+        let ghost pos0 = self.bufpos();
+        Ok({
+        // Because we take position after the event before the End event,
+        // it is important that this position indicates beginning of the End event.
+        // If between last event and the End event would be only spaces, then we
+        // take position before the spaces, but spaces would be skipped without
+        // generating event if `trim_text_start` is set to `true`. To prevent that
+        // we temporary disable start text trimming.
+        //
+        // We also cannot take position after getting End event, because if
+        // `trim_markup_names_in_closing_tags` is set to `true` (which is the default),
+        // we do not known the real size of the End event that it is occupies in
+        // the source and cannot correct the position after the End event.
+        // So, we in any case should tweak parser configuration.
+        let config = self.config_mut();
+        let trim = config.trim_text_start;
+        config.trim_text_start = false;
+
+        let start = self.buffer_position();
+        let mut depth = 0;
+        let __lv1: core::ops::Range<u64>; loop
+            invariant_except_break
+                self.inv(),
+                self.reader.faults() >= old(self).reader.faults(),
+                !(self.state.state is Done) ==> self.state.offset + self.reader.remaining().len() <= u64::MAX,
+                self.reader.remaining().len() <= usize::MAX,
+                depth >= 0,
+                self.state.config == (Config { trim_text_start: false, ..cfg0 }),
+                trim == cfg0.trim_text_start,
+                start == pos0, start <= self.bufpos(),
+            ensures
+                self.inv(), self.reader.faults() >= old(self).reader.faults(),
+                self.state.config == cfg0,
+                __lv1.start == pos0 && __lv1.start <= __lv1.end <= self.bufpos(),
+            decreases measure(self.state, self.reader.remaining())
+        {
+            // A-depth (stated assumption, not replayable here): fewer than 2^31 - 1 nested same-name elements
+            assume(depth < 0x7fff_ffff);
+            {}
+            let end_m = self.buffer_position();
+            match self.read_event_impl(()) {
+                Err(e) => {
+                    self.config_mut().trim_text_start = trim;
+                    return Err(e);
+                }
+
+                Ok(Event::Start(e)) if e.name() == end => depth += 1,
+                Ok(Event::End(e)) if e.name() == end => {
+                    if depth == 0 {
+                        self.config_mut().trim_text_start = trim;
+                        { __lv1 = start..end_m; break; };
+                    }
+                    depth -= 1;
+                }
+                Ok(Event::Eof) => {
+                    self.config_mut().trim_text_start = trim;
+                    return Err(Error::missed_end(end, self.decoder()));
+                }
+                _ => (),
+            }
+        } __lv1
+    })
+    }
+//@end
+}
+}
+
+pub mod buffered_reader_ {
+use super::*;
+use vstd::prelude::*;
+pub type Result<T> = core::result::Result<T, Error>;
+pub type Span = core::ops::Range<u64>;
+
+impl<R: BufRead> Reader<R> {
+//@extract buffered_reader::Reader::read_event_into | src/reader/buffered_reader.rs :: impl<R: BufRead> Reader<R> :: fn read_event_into | serves=C01,C02,C03,C18
+ fn read_event_into<'b>(&mut self, buf: &'b mut Vec<u8>) -> (r: Result<Event<'b>>)
+        requires
+            old(self).inv(),
+            !(old(self).state.state is Done) ==> old(self).state.offset + old(self).reader.remaining().len() <= u64::MAX,
+            old(self).reader.remaining().len() <= usize::MAX,
+        ensures
+            final(self).inv(),
+            final(self).reader.faults() >= old(self).reader.faults(),
+            event_post(old(self).state, old(self).reader.remaining(), final(self).state, final(self).reader.remaining(), r,
+                final(self).reader.faults() > old(self).reader.faults()),
+            continues(r) ==> measure(final(self).state, final(self).reader.remaining()) < measure(old(self).state, old(self).reader.remaining()),
+            final(self).bufpos() >= old(self).bufpos(),
+            final(self).state.config == old(self).state.config,
+ {
+        self.read_event_impl(buf)
+    }
+//@end
+
+//@extract buffered_reader::Reader::read_to_end_into | src/reader/buffered_reader.rs :: impl<R: BufRead> Reader<R> :: fn read_to_end_into | serves=C03,C12 expand=read_to_end macro_files=src/reader/mod.rs
+ #[verifier::loop_isolation(false)]
+ #[verifier::allow_complex_invariants]
+ fn read_to_end_into(&mut self, end: QName, buf: &mut Vec<u8>) -> (r: Result<Span>)
+        requires
+            old(self).inv(),
+            !(old(self).state.state is Done) ==> old(self).state.offset + old(self).reader.remaining().len() <= u64::MAX,
+            old(self).reader.remaining().len() <= usize::MAX,
+        ensures
+            final(self).inv(),
+            final(self).reader.faults() >= old(self).reader.faults(),
+            // the temporarily changed trimming switch is restored on EVERY exit (C12)
+            final(self).state.config == old(self).state.config,
+            final(self).bufpos() >= old(self).bufpos(),
+            match r {
+                // the span starts where the reader stood and ends before the end tag that was read last
+                Ok(span) => span.start == old(self).bufpos() && span.start <= span.end <= final(self).bufpos(),
+                Err(_) => true,
+            },
+ {
+        let ghost cfg0 = self.state.config;
+        let ghost pos0 = self.bufpos();
+        Ok({
+        // Because we take position after the event before the End event,
+        // it is important that this position indicates beginning of the End event.
+        // If between last event and the End event would be only spaces, then we
+        // take position before the spaces, but spaces would be skipped without
+        // generating event if `trim_text_start` is set to `true`. To prevent that
+        // we temporary disable start text trimming.
+        //
+        // We also cannot take position after getting End event, because if
+        // `trim_markup_names_in_closing_tags` is set to `true` (which is the default),
+        // we do not known the real size of the End event that it is occupies in
+        // the source and cannot correct the position after the End event.
+        // So, we in any case should tweak parser configuration.
+        let config = self.config_mut();
+        let trim = config.trim_text_start;
+        config.trim_text_start = false;
+
+        let start = self.buffer_position();
+        let mut depth = 0;
+        let __lv1: core::ops::Range<u64>; loop
+            invariant_except_break
+                self.inv(),
+                self.reader.faults() >= old(self).reader.faults(),
+                !(self.state.state is Done) ==> self.state.offset + self.reader.remaining().len() <= u64::MAX,
+                self.reader.remaining().len() <= usize::MAX,
+                depth >= 0,
+                self.state.config == (Config { trim_text_start: false, ..cfg0 }),
+                trim == cfg0.trim_text_start,
+                start == pos0, start <= self.bufpos(),
+            ensures
+                self.inv(), self.reader.faults() >= old(self).reader.faults(),
+                self.state.config == cfg0,
+                __lv1.start == pos0 && __lv1.start <= __lv1.end <= self.bufpos(),
+            decreases measure(self.state, self.reader.remaining())
+        {
+            // A-depth (stated assumption, not replayable here): fewer than 2^31 - 1 nested same-name elements
+            assume(depth < 0x7fff_ffff);
+            {
+            buf.clear();
+        }
+            let end_m = self.buffer_position();
+            match self.read_event_impl(buf) {
+                Err(e) => {
+                    self.config_mut().trim_text_start = trim;
+                    return Err(e);
+                }
+
+                Ok(Event::Start(e)) if e.name() == end => depth += 1,
+                Ok(Event::End(e)) if e.name() == end => {
+                    if depth == 0 {
+                        self.config_mut().trim_text_start = trim;
+                        { __lv1 = start..end_m; break; };
+                    }
+                    depth -= 1;
+                }
+                Ok(Event::Eof) => {
+                    self.config_mut().trim_text_start = trim;
+                    return Err(Error::missed_end(end, self.decoder()));
+                }
+                _ => (),
+            }
+        } __lv1
+    })
+    }
+//@end
+}
 }
